@@ -39,6 +39,9 @@ AbstractParameterAliasable::AbstractParameterAliasable(const AbstractParameterAl
 AbstractParameterAliasable& AbstractParameterAliasable::operator=(const AbstractParameterAliasable& ap)
 {
   AbstractParametrizable::operator=(ap);
+  // Forget the previous independent parameters and alias listeners, they belong to the replaced parameters:
+  independentParameters_.reset();
+  aliasListenersRegister_.clear();
 
   for (size_t i = 0; i < ap.independentParameters_.size(); i++)
   {
